@@ -59,7 +59,7 @@ def cases(tier, seed):
         yield {"kind": "stsf", "per_class": int(rng.integers(2, 4)), "classes": int(rng.integers(2, 5)), "nt": int(rng.integers(16, 40)), "n_estimators": int(rng.integers(8, 25)),
                "labels": ["int3", "mixedcase", "noncontig", "int5", "strnum"][int(rng.integers(0, 5))], "dseed": int(rng.integers(0, 2 ** 31)), "eseed": int(rng.integers(0, 100))}
     for r in range(20 if tier == "quick" else 300):
-        FORMS = ["list", "int", "name", "names", "slice", "mask", "callable"]
+        FORMS = ["list", "int", "name", "names", "slice", "mask", "callable", "array", "mask-array", "callable-array"]
         k = int(rng.integers(1, 4))
         yield {"kind": "colens", "members": k, "nc": int(rng.integers(3, 6)), "ni": int(rng.integers(10, 18)), "nt": int(rng.integers(12, 24)),
                "classes": int(rng.integers(2, 4)), "dseed": int(rng.integers(0, 2 ** 31)), "eseed": int(rng.integers(0, 100)),
@@ -408,6 +408,12 @@ def _colens(case, ctx):
             return [j == c for j in range(nc)]
         if form == "callable":
             return lambda Z, c=c: [c]
+        if form == "array":
+            return np.array([c])                      # integer position array (position 0 is a position like any other)
+        if form == "mask-array":
+            return np.array([j == c for j in range(nc)])
+        if form == "callable-array":
+            return lambda Z, c=c: np.array([c])
         return [c]
     forms = case.get("forms") or ["list"] * len(cols)
     members = [("m%d" % i, mk(i), colspec(c, forms[i % len(forms)])) for i, c in enumerate(cols)]
@@ -415,7 +421,8 @@ def _colens(case, ctx):
     # members that must not vote: 'drop' entries and empty column selections, at arbitrary positions
     free = [c for c in range(nc) if c not in cols]
     for j, (what, where) in enumerate(case.get("skipped") or []):
-        entry = ("s%d" % j, "drop", [free[j % len(free)]] if free else [cols[0]]) if what == "drop" else ("s%d" % j, mk(50 + j), [])
+        empty = [[], np.array([], dtype=int), np.zeros(nc, dtype=bool)][(case["dseed"] + j) % 3]      # the empty selection as list, index array or all-False mask
+        entry = ("s%d" % j, "drop", [free[j % len(free)]] if free else [cols[0]]) if what == "drop" else ("s%d" % j, mk(50 + j), empty)
         members.insert(min(where, len(members)), entry)
     kw = {}
     used = set(cols) | {e[2][0] for e in members if e[1] == "drop" and e[2]}
